@@ -117,3 +117,30 @@ impl SendHandler {
             .map_err(Error::Io)
     }
 }
+
+#[cfg(feature = "verif-hooks")]
+impl SendHandler {
+    /// Verification hook: like `spawn`, but encoded datagrams are pushed to a channel instead of
+    /// being written to a UDP socket.
+    pub(crate) fn spawn_virtual(
+        executor: Box<dyn Executor>,
+        out: mpsc::UnboundedSender<(NodeAddress, Vec<u8>)>,
+    ) -> (mpsc::Sender<OutboundPacket>, oneshot::Sender<()>) {
+        let (exit_send, mut exit) = oneshot::channel();
+        let (handler_send, mut handler_recv) = mpsc::channel::<OutboundPacket>(30);
+        executor.spawn(Box::pin(async move {
+            loop {
+                tokio::select! {
+                    Some(packet) = handler_recv.recv() => {
+                        let encoded_packet = packet.packet.encode(&packet.node_address.node_id);
+                        let _ = out.send((packet.node_address, encoded_packet));
+                    }
+                    _ = &mut exit => {
+                        return;
+                    }
+                }
+            }
+        }));
+        (handler_send, exit_send)
+    }
+}
